@@ -269,6 +269,11 @@ def run_impl(file_ir: FileIr, rounds=1):
         res = out[1]
         results = []
         for k, sym in enumerate(symbols):
+            if sym.id not in res:
+                # a function silently dropped from the results: keep the harness alive, the
+                # comparison with the model / the oracle will report it
+                results.append({"key": k, "gets": ["<function missing from results>"], "sets": [], "dels": [], "calls": []})
+                continue
             r = res[sym.id]
             results.append({"key": k, "gets": sorted(r["gets"]), "sets": sorted(r["sets"]),
                             "dels": sorted(r["dels"]), "calls": sorted(r["calls"])})
